@@ -27,6 +27,13 @@ CONFIGS = [
     # configurations that dead-end on purpose (error outcomes of the sampler, explained by the specification)
     dict(name="deadpartner", frags="{#A=[>]CC[<][>x]}", all_atom=True, react={}, cond={}, terminal=[], targets=[90]),
     dict(name="deadcond", frags="{#A=[$a]CC[$b]}", all_atom=True, react={}, cond={"$a": {"$a": 0, "$b": 0}}, terminal=[], targets=[90]),
+    # a conditional row that mentions descriptors which are NOT complementary to its key: the table weights partners,
+    # it does not make partners
+    dict(name="rowextra", frags="{#A=[>A]CC[<A][$B],#B=[$B]O[$B]}", all_atom=True,
+         react={">A": 0.5, "<A": 0.5, "$B": 0.5}, cond={">A": {"<A": 0.5, "$B": 0.5, ">A": 0.5}, "$B": {"$B": 1.0, "<A": 1.0}},
+         terminal=[], targets=[120, 300]),
+    # labels that end in a digit (the order is the LAST character only)
+    dict(name="digitlabel", frags="{#PEO=[<1]COC[>1],#PE=[<1]CC[>1][$A2]=[$A2]}", all_atom=True, react={}, cond={}, terminal=[], targets=[150, 400]),
     dict(name="orders", frags="{#A=[$]=CC[$],#B=[$]=C(F)C=[$],#C=[$]O[$]}", all_atom=True,
          react={}, cond={}, terminal=[], targets=[120, 400]),
     dict(name="dirorders", frags="{#A=[>]=CC[<],#B=[<]=C(N)C[>],#C=[>x]O[<x]=[<]}", all_atom=True,
